@@ -49,6 +49,18 @@ let handle (x : sexp) : Stdlib.String.t =
       let obs = run_cfg entry_points set_default_plumbing (List.map cop_of h) (env_of d0) in
       String.concat " ; " (List.map (fun (d, eff) ->
         env_out d ^ " | " ^ (match eff with None -> "-" | Some e -> env_out e)) obs)
+  | L [A "graph"; root; indent; w; rw; L heap; L info] ->
+      let h = List.map gnode_of heap in
+      let (res, st) = gprint h (ginfo_of info) (nat_of_int (List.length h + 1)) (natv root) in
+      let ws = String.concat "," (List.map (fun r -> string_of_int (int_of_nat r)) st.g_warns) in
+      (match res with
+       | GExc -> "X | W " ^ ws
+       | GFuel -> "FUEL"
+       | GOk v ->
+           (match pformat_model printable is_space_u is_word_u is_linebreak big_fuel big_fuel v
+                    (zint indent) (zint w) (zint rw) None (z_of_int 1000) false with
+            | None -> "FUEL"
+            | Some s -> "R " ^ str_out s ^ " | W " ^ ws ^ " | V " ^ string_of_int (List.length st.g_visited)))
   | _ -> "ERR bad request"
 
 let () =
